@@ -39,6 +39,27 @@ chk("C16", "fbbsim", "exploration",
     TB + " Salt copy pinned by the published test vectors.",
     "differential check against an independent implementation, hosted in the deterministic simulator", "DESIGN.md 3 C16")
 
+chk("C06", "codecsim", "exploration",
+    "Narrow claim: the stream interface of the codec under seeded call schedules - partition of the input into Write calls (incl. empty/1-byte writes and the 59/60/61 and 2047/2048/2049 boundaries), Read buffer-size sequences, short and (0,nil) reads of the underlying reader - with a separate fault arm (underlying writer fails/short-writes at byte k, underlying reader errors at byte k). Oracle: output = input, both Close nil, compressed bytes identical across partitions, and the independent reference decoder reproduces the input from the library's stream; fault arm: never success with wrong or incomplete data. The input families themselves are plain input generation (labelled so in the evidence).",
+    "Trusted base: ref/lzhuf (independent decoder, validated on the five golden files), the scripted reader/writer. No clock or concurrency is involved; the simulator contributes the call schedule and the I/O faults.",
+    "seeded call-schedule and I/O-fault exploration with an independent reference decoder", "DESIGN.md 3 C06")
+chk("C08", "codecsim", "fault_enumeration",
+    "Per plan one or two valid streams (library writer and the reference's seed-driven encoder, with and without CRC) are damaged exhaustively: EOF after every prefix length, every single-bit flip (streams <= 512 B, seeded sample above), header edits (negative/zero/too small/too large sizes, CRC bytes), splices, dropped/duplicated bytes, trailing bytes, reader I/O error at offset k, plus random byte strings; each damaged stream is read with plan-chosen buffer sizes. Oracle against the independent decoder: no panic, termination within a step budget, at most the declared number of bytes each equal to the canonical decoding, Close()==nil only if CRC and size hold and the output is canonical, and Close()==nil required for undamaged streams.",
+    "Trusted base: ref/lzhuf decoder/encoder (validated on the five golden files; greedy mode reproduces them byte for byte). Termination is a step budget, not a clock; a spin inside one call is left to the wall-clock watchdog.",
+    "fault enumeration over stored/transported streams with an independent reference decoder", "DESIGN.md 3 C08")
+chk("C15", "telnetsim", "exploration",
+    "Real telnet.Listen/Accept and Dial/DialTimeout/DialContext/DialURL on the simulated network: seeded segmentation and coalescing of prompts, replies and first payloads (including payload in the same segment as the last login line), library-vs-library, library dialler vs scripted conforming and hostile servers (silent, partial prompt, garbage, close at offset k, endless drip, SYN never answered), scripted client vs library listener. Oracle: RemoteCall equals the dialled callsign, post-login byte streams complete and unmodified both ways, and every dial call has returned when the simulated clock reaches its deadline + 1 s.",
+    TB + " net import swapped for the simulated network shim.",
+    "deterministic simulation (simulated TCP with seeded segmentation, hostile server models, simulated deadlines)", "DESIGN.md 3 C15")
+chk("C17", "fbbsim", "exploration",
+    "C01 scenarios with a recording StatusUpdater on both stations in a -race build; every conn.Write blocks for a seeded simulated time (none ... longer than the 250 ms reporting period) so the reporter goroutines run at seed-chosen points of the transfer; timer-assigned schedules add no synchronisation that could hide a race. Oracle: zero race-detector reports, and per transferred message and direction 0 <= BytesTransferred <= BytesTotal = compressed size, exactly one Done report, none after it.",
+    TB + " Data-race freedom is judged by the Go race detector on the sampled executions.",
+    "deterministic simulation under the race detector (seeded transport pacing) + status-history oracle", "DESIGN.md 3 C17")
+chk("C19", "dialsim", "exploration",
+    "Narrow claim: concurrent Register(Context)Dialer / UnregisterDialer / DialURL(Context) calls from 2-6 client goroutines at seed-chosen simulated instants (distinct, and a second arm with identical instants) in a -race build; histories checked with porcupine against a map model (Illegal = violation, Unknown = recorded only). Riding on the same engine: URLs built from component tuples must parse to exactly those components and reach the registered recording dialer; short targets, digis on ardop/telnet and unregistered schemes are refused; arbitrary strings never panic ParseURL.",
+    TB + " porcupine v1.3.0; the identical-instants arm is sound but not replayable (synctest randomises same-instant timers).",
+    "deterministic simulation under the race detector + porcupine linearizability check; generated URL tuples", "DESIGN.md 3 C19")
+
 na = [
  ("C07", "pure function of the input bytes (codec interoperability): no schedule, clock, fault or second party for a simulator to control; see DESIGN.md section 4"),
  ("C09", "pure function of the message (serialisation round trip); reader chunking is absorbed by a bufio.Reader; see DESIGN.md section 4"),
